@@ -130,3 +130,13 @@ func TestWorker(t *testing.T) {
 	_ = os.RemoveAll(ScratchRoot())
 	syscall.Exit(0)
 }
+
+// TestFixture generates the RSA key fixture used by web-level scenarios (called by bin/setup.sh).
+func TestFixture(t *testing.T) {
+	if os.Getenv("VERIF_MAKE_FIXTURES") == "" {
+		t.Skip("VERIF_MAKE_FIXTURES not set")
+	}
+	if err := EnsureFixtures(); err != nil {
+		t.Fatal(err)
+	}
+}
